@@ -64,7 +64,7 @@ PROPS["C01"] = {
          "invariants": ["NoPanic", "DenStable", "EngInLang", "Emit"], "forms": ["mc_opt"], "workers": 12},
     ],
     "gens": lambda tier: [{"topic": "opt", "n": q(tier, 400, 12000)}],
-    "rules": ["den", "opt_panic", "match_panic"],
+    "rules": ["den", "opt_panic", "match_panic", "reopt_differs"],
     "chunk": 300,
 }
 
@@ -86,8 +86,8 @@ PROPS["C12"] = {
     "title": "Loading, optimising and matching are deterministic and pure",
     "models": lambda tier: [],
     "second_process": "reverse",
-    "gens": lambda tier: [{"topic": "pure", "n": q(tier, 400, 8000)}],
-    "rules": ["den", "print_differs", "opt_panic", "match_panic"],
+    "gens": lambda tier: [{"topic": "pure", "n": q(tier, 400, 8000)}, {"topic": "bigq", "n": q(tier, 8, 60)}],
+    "rules": ["den", "print_differs", "opt_panic", "match_panic", "reopt_differs"],
     "chunk": 300,
 }
 
@@ -165,7 +165,7 @@ PROPS["C10"] = {
         {"module": "MC_Nest", "constants": {"MaxArr": q(tier, 2, 3)},
          "invariants": ["DottedLaw", "ArrayLaw", "Emit"], "forms": ["nested_obj", "nested_arr"], "workers": 4},
     ],
-    "gens": lambda tier: [{"topic": "path", "n": q(tier, 500, 10000)}],
+    "gens": lambda tier: [{"topic": "path", "n": q(tier, 500, 10000)}, {"topic": "nm", "n": q(tier, 100, 1500)}],
     "rules": ["find_value", "find_panic", "oracle", "tri_oracle", "match_panic"],
     "chunk": 400,
 }
@@ -211,9 +211,13 @@ PROPS["C15"] = {
     "models": lambda tier: [
         {"module": "MC_Ident", "constants": {"MaxLen": q(tier, 3, 4), "Dev": "{}", "IcBuild": "TRUE"},
          "invariants": ["NoPanic", "WriteRead"], "no_cases": True, "workers": 8},
+        # the same strings, executed by BOTH harness builds: the trace specification judges each
+        # into_identifier result with the build that produced it (event field `build`)
+        {"module": "MC_Ident", "constants": {"MaxLen": q(tier, 3, 3), "Dev": "{}", "IcBuild": "FALSE"},
+         "invariants": ["Emit"], "forms": ["ok", "err", "unk"], "workers": 8},
     ],
     "gens": lambda tier: [{"topic": "ic+lang", "n": q(tier, 500, 10000)}, {"topic": "ic+str", "n": q(tier, 300, 6000)}],
-    "rules": ["den", "oracle", "ic_load_differs", "load_panic", "match_panic"],
+    "rules": ["den", "oracle", "ic_load_differs", "load_panic", "match_panic", "ident_parse", "ident_panic"],
     "chunk": 400,
 }
 
